@@ -127,6 +127,7 @@ Example C06_dh_small_group :
   let a := 12345678901234567891%Z in let b := 9876543210987654321%Z in
   modpow (modpow g a p) b p = modpow (modpow g b p) a p /\ modpow (modpow g a p) b p = 10305157103539404049%Z.
 Proof. vm_compute. split; reflexivity. Qed.
+Print Assumptions C06_dh_small_group.
 
 (* a conformant server and well-formed draws exist: pq = 2 * 3, a degenerate but lawful RSA pair (e = d = 1, so that
    decryption inverts encryption by computation; real key pairs satisfy rsa_pair by Euler's theorem, which is not
@@ -154,6 +155,7 @@ Proof.
   intros m Hm. unfold sexp. rewrite !modpow_spec by (unfold ex_rsa_n; lia).
   rewrite !Z.pow_1_r. rewrite Z.mod_small by lia. rewrite N2Z.id. rewrite Z.mod_small by lia. apply N2Z.id.
 Qed.
+Print Assumptions ex_rsa_pair.
 
 Example C06_hypotheses_satisfiable : conformant sha1 modpow ex_sp /\ draws_ok ex_dr.
 Proof.
@@ -186,6 +188,7 @@ Proof.
     + intros n. apply repeat_length.
     + intros n. unfold okb. induction n; [reflexivity|]. cbn [repeat bytes_ok forallb]. exact IHn.
 Qed.
+Print Assumptions C06_hypotheses_satisfiable.
 
 (* ... and on that instance the whole exchange, computed inside Coq with the Gallina SHA-1, AES-256, modpow and the
    factorisation loop model: three plain messages, the session saved, client and server hold the same 256-byte key
@@ -212,3 +215,4 @@ Example C06_example_run :
   | _ => false
   end = true.
 Proof. vm_compute. reflexivity. Qed.
+Print Assumptions C06_example_run.
